@@ -28,7 +28,7 @@ def run(name, pids, tier='quick'):
         for pid in pids:
             rc, o = sh([PY, '/verif/run.py', 'check', pid, '--tier', tier], cwd='/verif', env=env)
             lines = [l for l in o.strip().split('\n') if l.startswith(('VIOLATION', 'KNOWN', 'INFRA'))]
-            out.append((name, pid, rc, (lines[0][:160] if lines else o.strip().split('\n')[-1][:160])))
+            out.append((name, pid, rc, (next((l for l in lines if l.startswith("VIOLATION")), lines[0] if lines else o.strip().split("\n")[-1])[:200])))
     finally:
         sh(['git', '-C', '/repo', 'worktree', 'remove', '--force', wt])
         shutil.rmtree(scratch, ignore_errors=True)
